@@ -28,10 +28,12 @@ Theorem each_needed_option_once : forall e p n v b bp bn ctor calls,
 Proof. exact each_option_at_most_once_proof. Qed.
 Print Assumptions each_needed_option_once.
 
-(* FromBuilder keeps one mapping per option, for that option *)
+(* FromBuilder keeps at most one mapping per option, for that option (ms, in option order), followed by the
+   loops of listOfDisjunctionOptions (lms: one per list of unions exposed as per-branch appending options) *)
 Theorem one_mapping_per_option : forall e b,
-  exists ms, Forall2 mapping_of (b_options b) ms /\
-             cv_mappings (from_builder e b) = filter (fun m => negb (match cm_options m with [] => true | _ => false end)) ms.
+  exists ms lms, Forall2 mapping_of (b_options b) ms /\
+             cv_mappings (from_builder e b) =
+             filter (fun m => negb (match cm_options m with [] => true | _ => false end)) (ms ++ lms).
 Proof. exact from_builder_mappings. Qed.
 Print Assumptions one_mapping_per_option.
 
